@@ -73,6 +73,9 @@ def generate():
         ops = build(link, weak, call)
         i = next(k for k, x in enumerate(ops) if x["op"] in CALLS or x["op"] == "IntoRaw")
         out.append(ops[:i] + [op("DropRoot", 2), op("DropRoot", 3)] + ops[i:])
+    # the small-payload program (zero-sized, 1 byte, odd-sized array, over-aligned payloads; the
+    # last owner of several of them is a Weak): constructors, raw round trips, releases
+    out.append([op("New", 1), op("Misc", 1), op("Downgrade", 1), op("Misc", 1), op("DropRoot", 1), op("Misc", 1), op("WeakDrop", 1)])
     return out
 
 
